@@ -1,26 +1,38 @@
 ---------------------------- MODULE ProtoReader ----------------------------
 (* C38 - state machine of the reader stack the ONNX protobuf decoder drives:  *)
 (* an arbitrary decoder (the environment) reads fields tag / value / length / *)
-(* body from a reader with a stack of limits.                                 *)
+(* body from a reader with a stack of limits (LimitReader over ValueReader).   *)
 (*                                                                            *)
-(*  Wrapping = FALSE: the CONTRACT reader.  Lengths are checked against the   *)
-(*    innermost limit and the file length in unbounded arithmetic.  TLC       *)
-(*    checks Monotone, InBounds, Linear (with ProtoContract!OpBound) and       *)
-(*    termination for every decoder behaviour.                                *)
-(*  Wrapping = TRUE: the IMPLEMENTATION-SHAPED reader, transcribed from       *)
-(*    rten-onnx/src/protobuf/{value.rs,field.rs} as compiled in release mode:  *)
-(*    LimitReader::new/sub_limit compute `position() + len` modulo the word    *)
-(*    size W and do not clamp to the parent limit; check_has_bytes compares    *)
-(*    `position() + len <= end` modulo W; ValueReader::skip does               *)
-(*    seek_relative(len as i64); read_bytes allocates len bytes and then       *)
-(*    read_exact's.  W is 2^64 in the code and 2^4..2^6 here.  Steps that      *)
-(*    break the contract are not invariant violations of this variant: they    *)
-(*    are printed as CANDIDATES (kind of field, class of length relative to    *)
-(*    the position) which the harness scales to 64-bit inputs and runs on the  *)
-(*    real decoder; only the trace validation of those runs decides.           *)
+(* A varint (tag, length, varint value, packed element) is read as the code    *)
+(* reads it: LimitReader::read_varint checks that ONE byte remains before the  *)
+(* limit and the underlying reader then consumes up to MaxVar bytes, so a      *)
+(* varint that straddles the end of an embedded message or packed field        *)
+(* leaves the position BEYOND the limit ("overrun").  The contract for that    *)
+(* state: no later operation through that limited reader may succeed           *)
+(* (InLimit) - the next bounded read must report the end / an error.           *)
+(*                                                                            *)
+(*  Wrapping = FALSE, EndOf = "checked_add": the reader as the contract wants  *)
+(*    it and as the current code implements it (LimitReader::end_of:           *)
+(*    position.checked_add(len) <= end; sub-limits never exceed the parent;    *)
+(*    skip / read_bytes verify that the bytes exist).  TLC checks Monotone,    *)
+(*    InBounds, InLimit, Linear (ProtoContract!OpBound) and termination for    *)
+(*    every decoder behaviour.                                                 *)
+(*  Wrapping = FALSE, EndOf = "subtract": the alternative bounds test          *)
+(*    `len <= end - position` (wrapping subtraction, as a release build        *)
+(*    computes it).  It relies on position <= end, which the overrun state     *)
+(*    breaks: TLC REFUTES InLimit for it (kept as a documented refuted         *)
+(*    variant; with overflow checks the same expression panics).               *)
+(*  Wrapping = TRUE: the reader of the PINNED tree (before the repairs),       *)
+(*    transcribed from rten-onnx/src/protobuf/{value.rs,field.rs} as compiled  *)
+(*    in release mode: `position() + len` modulo W, no clamp to the parent     *)
+(*    limit, seek_relative(len as i64), allocate-then-read.  Its contract-      *)
+(*    breaking steps are printed as CANDIDATES (kind of field, class of length  *)
+(*    relative to the position) which the harness scales to 64-bit inputs and   *)
+(*    runs on the real decoder; only the trace validation of those runs decides.*)
+(* W is 2^64 in the code and 2^4..2^6 here; MaxVar is 10 in the code.          *)
 EXTENDS ProtoContract, Integers, TLC, Json
 
-CONSTANTS W, MaxFile, MaxDepth, Wrapping
+CONSTANTS W, MaxFile, MaxDepth, MaxVar, Wrapping, EndOf
 
 VARIABLES fileLen,  \* length of the input
           pos,      \* position of the underlying reader
@@ -29,24 +41,29 @@ VARIABLES fileLen,  \* length of the input
           curLen,   \* declared length of the current length-delimited field
           nops,     \* operations that reached the underlying reader
           status,   \* "run" | "ok" | "err"
-          last      \* the last operation (observation used by the invariants)
-vars == <<fileLen, pos, ends, phase, curLen, nops, status, last>>
+          last,     \* the last operation (observation used by the invariants)
+          over      \* history: a region was entered whose declared end lies beyond the input
+vars == <<fileLen, pos, ends, phase, curLen, nops, status, last, over>>
 
-Op(k, len, p0, p1, ok) == [k |-> k, len |-> len, p0 |-> p0, p1 |-> p1, ok |-> ok]
-NoOp == Op("none", 0, 0, 0, TRUE)
+\* lim: the innermost limit in force when the operation was issued
+Op(k, len, p0, p1, ok, lim) == [k |-> k, len |-> len, p0 |-> p0, p1 |-> p1, ok |-> ok, lim |-> lim]
+NoOp == Op("none", 0, 0, 0, TRUE, 0)
 Min(a, b) == IF a < b THEN a ELSE b
 
 Top == ends[Len(ends)]
 Plus(a, b) == IF Wrapping THEN (a + b) % W ELSE a + b
 Avail == IF pos <= fileLen THEN fileLen - pos ELSE 0
-\* LimitReader::check_has_bytes (contract: also against the real end of input)
+\* LimitReader::end_of / check_has_bytes
 Has(len) == IF Wrapping THEN Plus(pos, len) <= Top
-            ELSE pos + len <= Min(Top, fileLen)
+            ELSE IF EndOf = "subtract" THEN len <= (Top - pos) % W
+            ELSE pos + len <= Top
+\* the bytes exist in the input (ValueReader: read_exact / verified skip)
+InFile(len) == pos <= fileLen /\ len <= fileLen - pos
 
 Init == /\ fileLen \in 0..MaxFile
         /\ pos = 0
-        /\ ends = <<W - 1>>         \* Fields::new: LimitReader::new(reader, u64::MAX)
-        /\ phase = "tag" /\ curLen = 0 /\ nops = 0 /\ status = "run" /\ last = NoOp
+        /\ ends = <<W - 1>>         \* Fields::new: the unbounded top-level reader (end = u64::MAX)
+        /\ phase = "tag" /\ curLen = 0 /\ nops = 0 /\ status = "run" /\ last = NoOp /\ over = FALSE
 
 Pop == IF Len(ends) > 1
        THEN /\ ends' = SubSeq(ends, 1, Len(ends) - 1) /\ phase' = "tag" /\ UNCHANGED status
@@ -54,104 +71,144 @@ Pop == IF Len(ends) > 1
 
 Fail(op) == /\ status' = "err" /\ last' = op /\ nops' = nops + 1
             /\ UNCHANGED <<fileLen, pos, ends, phase, curLen>>
+Refuse == /\ status' = "err" /\ last' = NoOp
+          /\ UNCHANGED <<fileLen, pos, ends, phase, curLen, nops>>
 
-\* Fields::next: read the tag; Eof (from the limit or from the reader) ends the message.
+\* one varint: 1-byte limit check, then nb <= MaxVar bytes from the input
+VarintBytes == 1..Min(MaxVar, Avail)
+
+\* Fields::next: read the tag; Eof from the limit ends the message; the input
+\* ending inside a bounded message is an error, at top level it ends the message.
 ReadTag ==
-  /\ status = "run" /\ phase = "tag"
+  /\ status = "run" /\ phase = "tag" /\ UNCHANGED over
   /\ UNCHANGED <<fileLen, curLen>>
   /\ IF ~Has(1)
      THEN /\ Pop /\ UNCHANGED <<pos, nops>> /\ last' = NoOp
      ELSE IF Avail = 0
-     THEN /\ Pop /\ nops' = nops + 1 /\ UNCHANGED pos
-          /\ last' = Op("varint", 0, pos, pos, FALSE)
-     ELSE /\ pos' = pos + 1 /\ nops' = nops + 1
-          /\ last' = Op("varint", 0, pos, pos + 1, TRUE)
+     THEN IF Wrapping \/ Len(ends) = 1
+          THEN /\ Pop /\ nops' = nops + 1 /\ UNCHANGED pos
+               /\ last' = Op("varint", 0, pos, pos, FALSE, Top)
+          ELSE /\ status' = "err" /\ nops' = nops + 1 /\ UNCHANGED <<pos, ends, phase>>
+               /\ last' = Op("varint", 0, pos, pos, FALSE, Top)
+     ELSE \E nb \in VarintBytes :
+          /\ pos' = pos + nb /\ nops' = nops + 1
+          /\ last' = Op("varint", 0, pos, pos + nb, TRUE, Top)
           /\ phase' \in {"value", "len", "tag"}      \* "tag": group tags carry no value
           /\ UNCHANGED <<ends, status>>
 
-\* varint (1 byte here) or fixed-width value (2 bytes here)
+\* varint value (1..MaxVar bytes, 1-byte check) or fixed-width value (2 bytes here, full check)
 ReadValue ==
-  /\ status = "run" /\ phase = "value"
-  /\ \E nb \in {1, 2} :
-       IF ~Has(nb) THEN /\ status' = "err" /\ last' = NoOp
-                        /\ UNCHANGED <<fileLen, pos, ends, phase, curLen, nops>>
-       ELSE IF Avail < nb THEN Fail(Op("fixed", nb, pos, pos, FALSE))
-       ELSE /\ pos' = pos + nb /\ nops' = nops + 1 /\ phase' = "tag"
-            /\ last' = Op("fixed", nb, pos, pos + nb, TRUE)
-            /\ UNCHANGED <<fileLen, ends, curLen, status>>
+  /\ status = "run" /\ phase = "value" /\ UNCHANGED over
+  /\ \/ IF ~Has(1) THEN Refuse
+        ELSE IF Avail = 0 THEN Fail(Op("varint", 0, pos, pos, FALSE, Top))
+        ELSE \E nb \in VarintBytes :
+             /\ pos' = pos + nb /\ nops' = nops + 1 /\ phase' = "tag"
+             /\ last' = Op("varint", 0, pos, pos + nb, TRUE, Top)
+             /\ UNCHANGED <<fileLen, ends, curLen, status>>
+     \/ IF ~Has(2) THEN Refuse
+        ELSE IF ~InFile(2) THEN Fail(Op("fixed", 2, pos, pos, FALSE, Top))
+        ELSE /\ pos' = pos + 2 /\ nops' = nops + 1 /\ phase' = "tag"
+             /\ last' = Op("fixed", 2, pos, pos + 2, TRUE, Top)
+             /\ UNCHANGED <<fileLen, ends, curLen, status>>
 
 \* the length varint: the value is chosen by the adversary
 ReadLen ==
-  /\ status = "run" /\ phase = "len"
-  /\ IF ~Has(1) THEN /\ status' = "err" /\ last' = NoOp
-                     /\ UNCHANGED <<fileLen, pos, ends, phase, curLen, nops>>
-     ELSE IF Avail = 0 THEN Fail(Op("varint", 0, pos, pos, FALSE))
-     ELSE /\ pos' = pos + 1 /\ nops' = nops + 1 /\ phase' = "body"
+  /\ status = "run" /\ phase = "len" /\ UNCHANGED over
+  /\ IF ~Has(1) THEN Refuse
+     ELSE IF Avail = 0 THEN Fail(Op("varint", 0, pos, pos, FALSE, Top))
+     ELSE \E nb \in VarintBytes :
+          /\ pos' = pos + nb /\ nops' = nops + 1 /\ phase' = "body"
           /\ curLen' \in 0..(W - 1)
-          /\ last' = Op("varint", 0, pos, pos + 1, TRUE)
+          /\ last' = Op("varint", 0, pos, pos + nb, TRUE, Top)
           /\ UNCHANGED <<fileLen, ends, status>>
+
+\* In the current code Fields::next already requires the field to end within
+\* the message (sub_limit(len) for the Field's own reader).
+FieldFits == Wrapping \/ Has(curLen)
 
 \* Field::skip -> LimitReader::skip -> ValueReader::skip
 Skip ==
-  /\ status = "run" /\ phase = "body"
+  /\ status = "run" /\ phase = "body" /\ UNCHANGED over
   /\ IF Wrapping
-     THEN \* the Field's own limit is position() + len, so its check always passes;
-          \* seek_relative(len as i64): negative for len >= W/2; Cursor refuses
-          \* negative and overflowing positions, but not positions past the end.
+     THEN \* pinned tree: the Field's own limit is position() + len, so its check
+          \* always passes; seek_relative(len as i64): negative for len >= W/2;
+          \* Cursor refuses negative and overflowing positions, not positions past the end.
           LET off == IF curLen >= W \div 2 THEN curLen - W ELSE curLen
               np == pos + off
-          IN IF np < 0 \/ np >= W THEN Fail(Op("skip", curLen, pos, pos, FALSE))
+          IN IF np < 0 \/ np >= W THEN Fail(Op("skip", curLen, pos, pos, FALSE, Top))
              ELSE /\ pos' = np /\ nops' = nops + 1 /\ phase' = "tag"
-                  /\ last' = Op("skip", curLen, pos, np, TRUE)
+                  /\ last' = Op("skip", curLen, pos, np, TRUE, Top)
                   /\ UNCHANGED <<fileLen, ends, curLen, status>>
-     ELSE IF ~Has(curLen) THEN Fail(Op("skip", curLen, pos, pos, FALSE))
+     ELSE IF ~FieldFits THEN Refuse
+          \* lengths >= W/2 do not fit the signed offset; the last skipped byte must exist
+          ELSE IF curLen >= W \div 2 \/ ~InFile(curLen) THEN Fail(Op("skip", curLen, pos, pos, FALSE, Top))
           ELSE /\ pos' = pos + curLen /\ nops' = nops + 1 /\ phase' = "tag"
-               /\ last' = Op("skip", curLen, pos, pos + curLen, TRUE)
+               /\ last' = Op("skip", curLen, pos, pos + curLen, TRUE, Top)
                /\ UNCHANGED <<fileLen, ends, curLen, status>>
 
 \* Field::read_bytes / read_string
 ReadBytes ==
-  /\ status = "run" /\ phase = "body"
-  /\ IF (Wrapping /\ curLen <= Avail /\ pos <= fileLen) \/ (~Wrapping /\ Has(curLen))
+  /\ status = "run" /\ phase = "body" /\ UNCHANGED over
+  /\ IF ~FieldFits THEN Refuse
+     ELSE IF InFile(curLen)
      THEN /\ pos' = pos + curLen /\ nops' = nops + 1 /\ phase' = "tag"
-          /\ last' = Op("bytes", curLen, pos, pos + curLen, TRUE)
+          /\ last' = Op("bytes", curLen, pos, pos + curLen, TRUE, Top)
           /\ UNCHANGED <<fileLen, ends, curLen, status>>
-     ELSE Fail(Op("bytes", curLen, pos, pos, FALSE))   \* implementation: after vec![0; len]
+     ELSE Fail(Op("bytes", curLen, pos, pos, FALSE, Top))   \* pinned tree: after vec![0; len]
 
 \* Field::read_message / packed repeated fields: a sub-limit of `len` bytes
 Enter(k, nextPhase) ==
   /\ status = "run" /\ phase = "body" /\ Len(ends) <= MaxDepth
-  /\ IF Wrapping \/ Has(curLen)
+  /\ over' = (over \/ (FieldFits /\ pos + curLen > fileLen))
+  /\ IF FieldFits
      THEN /\ ends' = Append(ends, Plus(pos, curLen)) /\ phase' = nextPhase
-          /\ last' = Op(k, curLen, pos, pos, TRUE)
+          /\ last' = Op(k, curLen, pos, pos, TRUE, Top)
           /\ UNCHANGED <<fileLen, pos, curLen, nops, status>>
-     ELSE /\ status' = "err" /\ last' = Op(k, curLen, pos, pos, FALSE)
+     ELSE /\ status' = "err" /\ last' = Op(k, curLen, pos, pos, FALSE, Top)
           /\ UNCHANGED <<fileLen, pos, ends, phase, curLen, nops>>
 EnterMessage == Enter("msg", "tag")
 EnterPacked == Enter("packed", "packed")
 
-\* one element of a packed field; Eof ends the field
+\* one varint element of a packed field; Eof from the limit ends the field
 ReadPacked ==
-  /\ status = "run" /\ phase = "packed"
+  /\ status = "run" /\ phase = "packed" /\ UNCHANGED over
   /\ UNCHANGED <<fileLen, curLen>>
   /\ IF ~Has(1) THEN /\ Pop /\ UNCHANGED <<pos, nops>> /\ last' = NoOp
-     ELSE IF Avail = 0 THEN /\ Pop /\ nops' = nops + 1 /\ UNCHANGED pos
-                            /\ last' = Op("varint", 0, pos, pos, FALSE)
-     ELSE /\ pos' = pos + 1 /\ nops' = nops + 1
-          /\ last' = Op("varint", 0, pos, pos + 1, TRUE)
+     ELSE IF Avail = 0
+     THEN IF Wrapping THEN /\ Pop /\ nops' = nops + 1 /\ UNCHANGED pos
+                           /\ last' = Op("varint", 0, pos, pos, FALSE, Top)
+          ELSE /\ status' = "err" /\ nops' = nops + 1 /\ UNCHANGED <<pos, ends, phase>>
+               /\ last' = Op("varint", 0, pos, pos, FALSE, Top)
+     ELSE \E nb \in VarintBytes :
+          /\ pos' = pos + nb /\ nops' = nops + 1
+          /\ last' = Op("varint", 0, pos, pos + nb, TRUE, Top)
           /\ UNCHANGED <<ends, phase, status>>
 
 Next == ReadTag \/ ReadValue \/ ReadLen \/ Skip \/ ReadBytes \/ EnterMessage \/ EnterPacked \/ ReadPacked
 
 \* ---- the contract, on the state machine ----
 Monotone == last.p1 >= last.p0
-InBounds == (last.ok /\ last.k \in {"skip", "bytes", "msg", "packed"}) => last.p0 + last.len <= fileLen
+InBounds == (last.ok /\ last.k \in {"skip", "bytes"}) => last.p0 + last.len <= fileLen
+\* an embedded message / packed field longer than the remaining input can be
+\* entered (its end is only a limit) but the decode must then end in an error
+OverlongIsError == status = "ok" => ~over
+\* The limit of an embedded message / packed field is enforced: no operation
+\* succeeds once the position is beyond the limit, nothing but a varint may end
+\* beyond it (by fewer than MaxVar bytes), and sub-regions lie within it.
+InLimit == last.ok =>
+             /\ last.p0 <= last.lim
+             /\ (last.k = "varint" => last.p1 - last.lim < MaxVar)
+             /\ (last.k \in {"fixed", "skip", "bytes"} => last.p1 <= last.lim)
+             /\ (last.k \in {"msg", "packed"} => last.p0 + last.len <= last.lim)
+\* the state the varint model makes reachable (TLC must find it: see OverrunReachable)
+Overrun == pos > Top
+NoOverrun == ~Overrun
 Linear == nops <= OpBound(fileLen)
 \* every behaviour ends: the only states without successor are final
 Terminates == (ENABLED Next) \/ status \in {"ok", "err"}
 Done == status \in {"ok", "err"}
 
-\* ---- candidates of the implementation-shaped variant ----
+\* ---- candidates of the pinned-tree variant ----
 \* explored up to one operation beyond the bound (the behaviour may be infinite)
 Bounded == nops <= OpBound(MaxFile) + 1
 Breaks == \/ last.p1 < last.p0
